@@ -224,16 +224,19 @@ Definition fp_fails (f : fileprog) : bool :=
    length-prefixed sources, gzip readers and response bodies report), or any other error value (a custom error,
    io.ErrClosedPipe, context.Canceled, an error that WRAPS io.EOF: only the bare sentinel marks the end).
    The sources considered are sticky: what the first Read that does not return nil reports, every later Read
-   reports again. The goroutine treats the values differently in its two phases:
-   - the sniffing io.ReadFull (512 bytes): io.EOF and io.ErrUnexpectedEOF are ReadFull's own way of saying that the
-     file is shorter than the window, so both are taken for the end there and the copy follows (it reads the source
-     again: a sticky io.ErrUnexpectedEOF fails it, a sticky io.EOF ends it); any other value aborts;
+   reports again. The goroutine has two phases:
+   - filling the 512-byte sniffing window (readHead, since the repair of F-C12-6): io.EOF alone is the end of the
+     source (a file shorter than the window) and the copy follows (it reads the source again and meets io.EOF); every
+     other value, io.ErrUnexpectedEOF included, is the source's failure: logClose, return.
+     Before the repair the window was filled with io.ReadFull, in whose vocabulary io.ErrUnexpectedEOF means: fewer
+     bytes than asked for. It was taken for the end as well and the copy followed: a sticky io.ErrUnexpectedEOF failed
+     the copy, one reported only once was lost (ends_sniff, fixes.fx_sniff_eof_only);
    - io.Copy: io.EOF alone is the end; every other value, io.ErrUnexpectedEOF included, is a failure.
    sf_with_data: the first Read of the copy that does not return nil hands out some bytes together with its error
    (io.Copy writes them first). sf_once: the source is NOT sticky: it reports its value once and io.EOF from then on
-   (what a source built on io.ReadFull does when its own input ends early). That makes a difference in one place only:
-   an io.ErrUnexpectedEOF reported once inside the sniffing window is taken for a short file and the copy then meets
-   io.EOF (sniff_swallowed). lower compiles a source into the success flags of fileprog. *)
+   (what a source built on io.ReadFull does when its own input ends early). That made a difference in one place only,
+   before the repair of F-C12-6: an io.ErrUnexpectedEOF reported once inside the sniffing window was taken for a short
+   file and the copy then met io.EOF (sniff_swallowed). lower compiles a source into the success flags of fileprog. *)
 Inductive rdres := RdOk | RdEnd | RdTrunc | RdErr.
 Record srcfile := mksf { sf_declared : bool; sf_sniff : rdres; sf_chunks : list rdres; sf_with_data : bool; sf_once : bool }.
 
@@ -249,18 +252,17 @@ Fixpoint lower_chunks_with (ends_copy : rdres -> bool) (wd : bool) (l : list rdr
            else (if wd then [true; false] else [false])
     end
   end.
-Definition lower_with (ends_copy : rdres -> bool) (f : srcfile) : fileprog :=
+(* ends_sniff: the values taken for the end of the source while the sniffing window is filled *)
+Definition lower_with (ends_sniff ends_copy : rdres -> bool) (f : srcfile) : fileprog :=
   if sf_declared f then mkfp true true (lower_chunks_with ends_copy (sf_with_data f) (sf_chunks f))
   else match sf_sniff f with
        | RdOk => mkfp false true (lower_chunks_with ends_copy (sf_with_data f) (sf_chunks f))
-       | RdErr => mkfp false false []
-       | r => mkfp false true (if sf_once f then []                      (* the copy meets io.EOF *)
-                               else lower_chunks_with ends_copy false [r]) (* sticky: the copy meets it again *)
+       | r => if ends_sniff r
+              then mkfp false true (if sf_once f then []                      (* the copy meets io.EOF *)
+                                    else lower_chunks_with ends_copy false [r]) (* sticky: the copy meets it again *)
+              else mkfp false false []                                          (* logClose, return *)
        end.
-Definition lower : srcfile -> fileprog := lower_with is_eof.
-(* a wrong reading: the test of the sniffing ReadFull applied to the copy as well (a truncated stream taken for its end) *)
 Definition is_eof_or_trunc (r : rdres) : bool := match r with RdEnd | RdTrunc => true | _ => false end.
-Definition lower_trunc_benign : srcfile -> fileprog := lower_with is_eof_or_trunc.
 
 (* the property's own notion, independent of lower: the source fails when the first Read that does not return nil
    reports something else than the end of the file *)
@@ -273,23 +275,35 @@ Fixpoint first_stop (l : list rdres) : rdres :=
   end.
 Definition is_failure (r : rdres) : bool := match r with RdTrunc | RdErr => true | _ => false end.
 Definition src_fails (f : srcfile) : bool := is_failure (first_stop (src_reads f)).
-(* the one failure the goroutine cannot tell from a short file: io.ErrUnexpectedEOF, reported once, inside the sniffing window *)
+(* the one failure the goroutine could not tell from a short file before the repair of F-C12-6: io.ErrUnexpectedEOF,
+   reported once, inside the sniffing window *)
 Definition sniff_swallowed (f : srcfile) : bool :=
   negb (sf_declared f) && sf_once f && match sf_sniff f with RdTrunc => true | _ => false end.
-Definition src_fails_visibly (f : srcfile) : bool := src_fails f && negb (sniff_swallowed f).
 
-(* the four repairs, and one ordering the code relies on, switchable so that each can be shown necessary *)
+(* the five repairs, and one ordering the code relies on, switchable so that each can be shown necessary *)
 Record fixes := mkfx {
   fx_defer_first : bool;          (* F-C12-2: the file-closing defer is registered before the form-field loop *)
   fx_close_on_late_error : bool;  (* F-C12-1: every error return after the goroutine started closes the pipe reader *)
   fx_close_on_param_error : bool; (* F-C12-4: a failing parameter writer does not leave handed-over files open *)
   fx_resp_close_first : bool;     (* Submit registers the deferred Close of the response body as soon as the response
                                      is there, before the Debug dump of the response (which can fail and return) *)
-  fx_resp_close_held : bool       (* F-C12-5: the deferred function closes the body the response holds when Submit
+  fx_resp_close_held : bool;      (* F-C12-5: the deferred function closes the body the response holds when Submit
                                      returns (the copy the Debug dump has put in its place, when it went through),
                                      not the body it held when the defer statement was executed *)
+  fx_sniff_eof_only : bool        (* F-C12-6: while the sniffing window is filled only io.EOF is the end of the source;
+                                     io.ErrUnexpectedEOF is the source's failure (before: io.ReadFull, both the end) *)
 }.
-Definition all_fixed : fixes := mkfx true true true true true.
+Definition all_fixed : fixes := mkfx true true true true true true.
+
+(* a source compiled into the success flags of the goroutine's program, under the repairs in force *)
+Definition ends_sniff (fx : fixes) : rdres -> bool := if fx_sniff_eof_only fx then is_eof else is_eof_or_trunc.
+Definition lower_fx (fx : fixes) : srcfile -> fileprog := lower_with (ends_sniff fx) is_eof.
+Definition lower : srcfile -> fileprog := lower_with is_eof is_eof.        (* = lower_fx all_fixed *)
+(* the code before the repair of F-C12-6 *)
+Definition sniff_unrepaired : fixes := mkfx true true true true true false.
+(* a wrong reading: the old test of the sniffing io.ReadFull applied to the whole of a file part, the copy included (a
+   truncated stream taken for its end) *)
+Definition lower_trunc_benign : srcfile -> fileprog := lower_with is_eof_or_trunc is_eof_or_trunc.
 
 Definition compile (fx : fixes) (nvalues : nat) (files : list fileprog) : list wop :=
   (if fx_defer_first fx then [ODefer] else []) ++
